@@ -2,6 +2,7 @@ package main
 
 import (
 	"bufio"
+	"errors"
 	"fmt"
 	"io"
 	"log"
@@ -305,12 +306,29 @@ func (env *c02env) treeItem(id int, name string, t *tree.Tree) *Sexp {
 	step("Edges()", func() { _ = t.Edges() })
 	step("Tips()", func() { _ = t.Tips() })
 	step("Newick()", func() { nwk = t.Newick() })
+	// traversals that index slices by node / branch id (ids are handed out by the reader)
+	step("PreOrder()", func() { t.PreOrder(func(cur, prev *tree.Node, e *tree.Edge) bool { return true }) })
+	step("PostOrder()", func() { t.PostOrder(func(cur, prev *tree.Node, e *tree.Edge) bool { return true }) })
+	step("NodeRootDistance()", func() { _ = t.NodeRootDistance() })
+	step("LTT()", func() { _ = t.LTT() })
+	step("CutEdgesMaxLength()", func() { _, _ = t.CutEdgesMaxLength(0.5) })
+	step("SortedTips()", func() { _ = t.SortedTips() })
 	var d, audit *Sexp
 	if use == "" && nnodes <= env.dumpMax {
 		step("dump", func() { d, audit = ObserveTree(t) })
 	}
-	step("ReinitIndexes()", func() { _ = t.ReinitIndexes() })
+	var reinitErr error = errors.New("not run")
+	step("ReinitIndexes()", func() { reinitErr = t.ReinitIndexes() })
 	step("Newick() after ReinitIndexes()", func() { _ = t.Newick() })
+	step("NodeRootDistance() after ReinitIndexes()", func() { _ = t.NodeRootDistance() })
+	if nnodes <= 200 {
+		step("ToDistanceMatrix()", func() { _, _ = t.ToDistanceMatrix(0) })
+		if reinitErr == nil {
+			// Quartets() ends the process (io.ExitWithMessage) when a tip has no index, so it is
+			// only called when the tip index was built
+			step("Quartets()", func() { t.Quartets(false, func(q *tree.Quartet) {}) })
+		}
+	}
 	it.List = append(it.List, KV("nwk", A(nwk)), KV("use", A(use)), KV("nodes", I(nnodes)))
 	if d != nil && audit != nil {
 		it.List = append(it.List, KV("tree", d), KV("audit", audit))
